@@ -153,4 +153,11 @@ MUTANTS = [
     ("check-asarray", ["C17"], A, "        if get_treeflatten_memo():\n            return \"\"\n", "        if get_treeflatten_memo():\n            return \"\"\n        if len(getattr(obj, 'shape', ())) == 2:\n            np.asarray(obj)\n"),
     ("tracer-rejected", ["C17"], A, "            if not isinstance(obj, cls.array_type):", "            if not isinstance(obj, cls.array_type) or ('Tracer' in type(obj).__name__ and len(obj.shape) == 3):"),
     ("batchtracer-shape-misread", ["C17"], A, "            if len(obj.shape) != len(cls.dims):", "            if len(getattr(obj, 'val', obj).shape) != len(cls.dims):"),
+    # (flatten-flag-finally-to-except: replaced by seeded changes C12-m1 / C08-m1)
+    # (flatten-flag-never-cleared-on-error: replaced by seeded changes C12-m1 / C08-m1)
+    ("treepath-finally-to-except", ["C12"], P, "        finally:\n            # Only a structured PyTree sets the treepath; a structure-less one must not\n            # clear the treepath of a structured PyTree that it is nested inside.\n            if cls.structure is not None:\n                clear_treepath_memo()", "        except Exception:\n            clear_treepath_memo()\n            raise"),
+    ("newstyle-pop-except-exception", ["C12"], D, "                try:\n                    # Put this in a separate frame to make debugging easier, without\n                    # just always ending up on the `pop_shape_memo` line below.\n                    return wrapped_fn_impl(args, kwargs, bound, memos)\n                finally:\n                    pop_shape_memo()", "                try:\n                    out = wrapped_fn_impl(args, kwargs, bound, memos)\n                except Exception:\n                    pop_shape_memo()\n                    raise\n                pop_shape_memo()\n                return out"),
+    ("make-array-cache-too-coarse", ["C12"], A, "    out = _make_array_cached(x, dim_str, dtype.dtypes, dtype.__name__)", "    out = _make_array_cached(x, dim_str, dtype.dtypes if dim_str != 'q' else ('int32',), dtype.__name__)"),
+    ("hook-exit-skipped-on-exception", ["C12"], I, "    def __exit__(self, exc_type, exc_val, exc_tb):\n        self.uninstall()", "    def __exit__(self, exc_type, exc_val, exc_tb):\n        if exc_type is None:\n            self.uninstall()"),
+    # (name-format-leaks-into-check: replaced by seeded changes C12-m1 / C08-m1)
 ]
